@@ -279,3 +279,29 @@ Proof.
   split; [eexists; split; [vm_compute; reflexivity|vm_compute; repeat split; reflexivity]|].
   vm_compute. reflexivity.
 Qed.
+
+(* ================================================================================================
+   Round 6 *)
+
+(* Error paths: exactly which inputs the model rejects and with which class (the correspondence run
+   compares the class with the exception of the real code: IndexError, ValueError, ZeroDivisionError):
+   empty data with a limit missing -> IndexError; an empty selection -> ValueError; a negative derived bin
+   count (bin-size mode with a non-positive / NaN bin size or a quotient outside int64) -> ValueError from
+   np.zeros; nbin = 0 -> ZeroDivisionError.  Nothing else is rejected. *)
+Theorem C05_rejections : forall eng x lo hi m e, histogram eng x lo hi m = Err e ->
+  (e = EIndex /\ x = [] /\ (lo = None \/ hi = None))
+  \/ (e = EValue /\ (lo <> None \/ hi <> None)
+      /\ exists xmin xmax, filter (fun k => within xmin xmax (fget x k)) (argsort x) = []
+                           /\ xmin = match lo with Some v => v | None => fget x (hd 0 (argsort x)) end
+                           /\ xmax = match hi with Some v => v | None => fget x (last (argsort x) 0) end)
+  \/ (e = EValue /\ exists dmin dmax w b nb, limits x (argsort x) lo hi = Ok (dmin, dmax, w)
+                                            /\ derive dmin dmax m = Ok (b, nb) /\ nb < 0)
+  \/ (e = EOther /\ m = ByNbin 0 /\ exists r, limits x (argsort x) lo hi = Ok r).
+Proof. exact histogram_rejections. Qed.
+
+Example C05_rejections_nonvacuous :
+  histogram EngC [] None None (ByNbin 2) = Err EIndex
+  /\ histogram EngPy [1; 2; 3]%float (Some 10%float) (Some 20%float) (ByBinsize 1%float) = Err EValue
+  /\ histogram EngC [1; 2; 3]%float None None (ByBinsize (-1)%float) = Err EValue
+  /\ histogram EngC [1; 2; 3]%float None None (ByNbin 0) = Err EOther.
+Proof. vm_compute. repeat split; reflexivity. Qed.
